@@ -31,6 +31,29 @@ pub fn check_case(body: &[u8], filters: &[FilterSpec], headers: &Headers, stats:
         m.fetch_max(ex.max_chunks as u64, Ordering::Relaxed);
     }
     let wrong: Vec<(&Vec<u8>, &Vec<usize>)> = ex.finals.iter().filter(|(out, _)| **out != reference).collect();
+    if !wrong.is_empty() && std::str::from_utf8(body).is_err() {
+        // A body that is not valid UTF-8. The filter fails on the call that contains the fault: delivered in one chunk the whole
+        // body passes through, delivered in several the chunks BEFORE the faulty one have been filtered already. That divergence
+        // is the library's error fallback by design (one signature, listed as an open finding). Everything else - bytes lost,
+        // duplicated or permuted on the way - is reported under a signature of its own.
+        let relation = crate::props::c04::relation_for(body, filters, headers);
+        let mut out = Vec::new();
+        let mut seen = std::collections::BTreeSet::new();
+        for (got, hist) in wrong {
+            let (sig, why) = match crate::props::c04::check_output(body, relation, got) {
+                None => ("invalid-utf8-body:chunks-before-the-fault-are-filtered".to_string(), "the chunked output is the input with the edits of the chunks that precede the fault".to_string()),
+                Some((kind, why)) => (format!("invalid-utf8-body:{kind}"), why),
+            };
+            if seen.insert(sig.clone()) {
+                out.push((
+                    sig,
+                    format!("body {:?} schedule {hist:?}: chunked output {:?} != one-chunk output {:?} ({why})", String::from_utf8_lossy(body), String::from_utf8_lossy(got), String::from_utf8_lossy(&reference)),
+                    hist.clone(),
+                ));
+            }
+        }
+        return out;
+    }
     if wrong.is_empty() {
         if ex.capped {
             return vec![("state-explosion".to_string(), format!("more than {} distinct filter states for body {:?}: exploration of this case is incomplete", crate::engines::chunk::MAX_STATES_PER_CASE, String::from_utf8_lossy(body)), vec![])];
@@ -122,6 +145,19 @@ pub fn cases(tier: Tier) -> Vec<Case> {
                     filters: fl[idx].1.clone(),
                     headers: h.clone(),
                 });
+            }
+        }
+    }
+    // bodies that are not valid UTF-8: one fault byte at every 5th (quick) / every position of a few curated documents
+    let two_html = fl.iter().position(|(n, _)| *n == "append[html,body]+replace[div]").unwrap_or(0);
+    for b in curated_bodies().iter().take(tier.pick(3, 8)) {
+        let bytes = b.as_bytes();
+        for pos in (0..=bytes.len()).step_by(tier.pick(5, 1)) {
+            let mut fb = bytes[..pos].to_vec();
+            fb.push(0xFF);
+            fb.extend_from_slice(&bytes[pos..]);
+            for idx in [0usize, 1, 3, two_html] {
+                out.push(Case { body: fb.clone(), filters_name: format!("{}+faultff@{pos}", fl[idx].0), filters: fl[idx].1.clone(), headers: vec![] });
             }
         }
     }
